@@ -344,6 +344,11 @@ func genScript(t *rapid.T, label string) faultScript {
 		op := rapid.SampledFrom([]string{"Get", "Get", "GetFromComposite", "Put", "FindMissing"}).Draw(t, fmt.Sprintf("%s/op%d", label, i))
 		at := rapid.IntRange(0, 6).Draw(t, fmt.Sprintf("%s/at%d", label, i))
 		out[faultKey{op, at}] = rapid.SampledFrom(faultCodes).Draw(t, fmt.Sprintf("%s/code%d", label, i))
+		// Bursts: the next call of the same kind (a repetition of the
+		// failed one, for instance) fails as well, in 1 of 4 cases.
+		for j := 1; j <= rapid.SampledFrom([]int{0, 0, 0, 0, 0, 0, 1, 2}).Draw(t, fmt.Sprintf("%s/burst%d", label, i)); j++ {
+			out[faultKey{op, at + j}] = rapid.SampledFrom(faultCodes).Draw(t, fmt.Sprintf("%s/code%d+%d", label, i, j))
+		}
 	}
 	return out
 }
